@@ -324,6 +324,13 @@ func targetOf(x interface{}) swTarget {
 // applyOp performs one op. Methods the target does not have on its plain
 // writer side are mapped to the closest one it has (WriteByte/WriteRune on a
 // printer go through Write), which the model treats identically.
+// scribble overwrites a byte slice that was handed to a write call (with marker bytes, to make a retained reference visible).
+func scribble(b []byte) {
+	for i := range b {
+		b[i] = "\xe2\x80\xb9#"[i%4]
+	}
+}
+
 func applyOp(t swTarget, o Op) {
 	switch o.M {
 	case "SafeString":
@@ -339,7 +346,9 @@ func applyOp(t swTarget, o Op) {
 	case "SafeByte":
 		t.w.SafeByte(interfaces.SafeByte(o.B))
 	case "SafeBytes":
-		t.w.SafeBytes(interfaces.SafeBytes(o.S))
+		b := interfaces.SafeBytes(o.S)
+		t.w.SafeBytes(b)
+		scribble(b) // the slice stays the caller's: reusing it must not reach what was written
 	case "UnsafeString":
 		t.w.UnsafeString(o.S)
 	case "UnsafeRune":
@@ -347,7 +356,12 @@ func applyOp(t swTarget, o Op) {
 	case "UnsafeByte":
 		t.w.UnsafeByte(o.B)
 	case "UnsafeBytes":
-		t.w.UnsafeBytes([]byte(o.S))
+		b := []byte(o.S)
+		t.w.UnsafeBytes(b)
+		scribble(b)
+	case "PrintLiteralRedactable":
+		// a redactable made by the library from a constant format: its bytes are the literal's, escaped
+		t.w.Print(redact.Sprintf(strings.ReplaceAll(o.S, "%", "%%")))
 	case "Print":
 		_, args := printArgs(o)
 		t.w.Print(args...)
@@ -355,7 +369,9 @@ func applyOp(t swTarget, o Op) {
 		f, args := printArgs(o)
 		t.w.Printf(f, args...)
 	case "Write":
-		t.wr.Write([]byte(o.S))
+		b := []byte(o.S)
+		t.wr.Write(b)
+		scribble(b)
 	case "WriteString":
 		if t.ws != nil {
 			t.ws.WriteString(o.S)
